@@ -158,7 +158,11 @@ def mutation_sweep(ctx):
     dec_ = lambda lo, hi: F(float(F(rng.randint(lo, hi), 10)))
     jobs, meta = [], []
     reps = 1 if ctx.quick() else 6
-    for _ in range(reps):
+    cheap = {"evaluate", "evaluate_multi", "evaluate_hodograph", "subdivide", "elevate", "specialize", "reduce_",
+             "evaluate_cartesian", "evaluate_barycentric", "evaluate_cartesian_multi", "edges"}
+    # (the cheap methods see 8 times as many nets: whether a write-back of a recomputed value changes a byte depends on the
+    # rounding of that particular value - seed c14-2 escaped a single net per degree)
+    for rep_ in range(8 * reps):
         for n in range(1, 9):
             c = [[dec_(-30, 30) for _ in range(n + 1)] for _ in range(2)]
             c2 = [[dec_(-30, 30) for _ in range(rng.randint(2, 4))] for _ in range(2)]
@@ -172,6 +176,8 @@ def mutation_sweep(ctx):
             if n <= 5:
                 calls.append(("self_intersections", []))
             for m, a in calls:
+                if rep_ >= reps and m not in cheap:
+                    continue
                 jobs.append({"op": "probe.mutation", "args": ["curve", enc_arr(c), m, a]})
                 meta.append(("curve", n, m, c))
         for d in range(1, 7):
@@ -191,6 +197,8 @@ def mutation_sweep(ctx):
             if d <= 2:
                 calls.append(("intersect", [["shape", "triangle", enc_arr(t2)]]))
             for m, a in calls:
+                if rep_ >= reps and m not in cheap:
+                    continue
                 jobs.append({"op": "probe.mutation", "args": ["triangle", enc_arr(t), m, a]})
                 meta.append(("triangle", d, m, t))
     stats = {"cases": len(jobs), "failures": 0, "methods": sorted({"%s.%s" % (k, m) for k, _, m, _ in meta}),
